@@ -18,6 +18,7 @@ validated against the real env/xargs/find/timeout/nice/nohup/sh by T2 (harness/p
 import Dippy.Lemmas.Quote
 import Dippy.Model.Wrappers
 import Dippy.Props.C07
+import Dippy.Generated.Tables
 
 namespace Dippy.C04
 
@@ -305,6 +306,87 @@ theorem dockerExecInner_suffix (b : Bool) (l inner : List String) (hi : dockerEx
               subst hi
               exact ⟨by intro he; rw [he] at hne; simp at hne, List.suffix_cons t rest⟩
 
+/-- env (without -S): what is delegated is the re-quoting of a non-empty suffix of the command line -/
+theorem envLoop_suffix (b : Bool) (l : List String) (c : Classification) (hc : envLoop b l = c) (hd : c.action = "delegate") :
+    (∃ inner, inner ≠ [] ∧ inner <:+ l ∧ c.innerCommand = some (bashJoin inner))
+      ∨ (∃ t, t ∈ l ∧ (t = "-S" ∨ t = "--split-string" ∨ Py.startsWith t "--split-string=" = true ∨ Py.startsWith t "-S" = true)) := by
+  induction l generalizing b with
+  | nil => cases b <;> (simp [envLoop] at hc; subst hc; simp [allow] at hd)
+  | cons t rest ih =>
+    cases b with
+    | true =>
+      simp only [envLoop] at hc
+      rcases ih false hc with ⟨inner, h1, h2, h3⟩ | ⟨x, hx, hx'⟩
+      · exact Or.inl ⟨inner, h1, List.IsSuffix.trans h2 (List.suffix_cons t rest), h3⟩
+      · exact Or.inr ⟨x, by simp [hx], hx'⟩
+    | false =>
+      simp only [envLoop] at hc
+      split at hc
+      · -- "--": the rest
+        unfold envInner at hc
+        split at hc
+        · subst hc; simp [allow] at hd
+        · rename_i hne
+          subst hc
+          exact Or.inl ⟨rest, by intro he; simp [he] at hne, List.suffix_cons t rest, rfl⟩
+      · split at hc
+        · rename_i hS
+          exact Or.inr ⟨t, by simp, by
+            simp only [Bool.or_eq_true, beq_iff_eq] at hS
+            rcases hS with h | h
+            · exact Or.inl h
+            · exact Or.inr (Or.inl h)⟩
+        · split at hc
+          · rename_i hS; exact Or.inr ⟨t, by simp, Or.inr (Or.inr (Or.inl hS))⟩
+          · split at hc
+            · rename_i hS
+              simp only [Bool.and_eq_true] at hS
+              exact Or.inr ⟨t, by simp, Or.inr (Or.inr (Or.inr hS.1))⟩
+            · split at hc
+              · rcases ih true hc with ⟨inner, h1, h2, h3⟩ | ⟨x, hx, hx'⟩
+                · exact Or.inl ⟨inner, h1, List.IsSuffix.trans h2 (List.suffix_cons t rest), h3⟩
+                · exact Or.inr ⟨x, by simp [hx], hx'⟩
+              · split at hc
+                · rcases ih false hc with ⟨inner, h1, h2, h3⟩ | ⟨x, hx, hx'⟩
+                  · exact Or.inl ⟨inner, h1, List.IsSuffix.trans h2 (List.suffix_cons t rest), h3⟩
+                  · exact Or.inr ⟨x, by simp [hx], hx'⟩
+                · split at hc
+                  · rcases ih false hc with ⟨inner, h1, h2, h3⟩ | ⟨x, hx, hx'⟩
+                    · exact Or.inl ⟨inner, h1, List.IsSuffix.trans h2 (List.suffix_cons t rest), h3⟩
+                    · exact Or.inr ⟨x, by simp [hx], hx'⟩
+                  · unfold envInner at hc
+                    simp only [List.isEmpty_cons, Bool.false_eq_true, ↓reduceIte] at hc
+                    subst hc
+                    exact Or.inl ⟨t :: rest, by simp, List.suffix_refl _, rfl⟩
+
+theorem fdAfterExec_suffix (l : List String) (f : String) (inner : List String) (h : fdAfterExec l = some (f, inner)) :
+    inner <:+ l := by
+  induction l with
+  | nil => simp [fdAfterExec] at h
+  | cons t rest ih =>
+    simp only [fdAfterExec] at h
+    split at h
+    · simp only [Option.some.injEq, Prod.mk.injEq] at h
+      rw [← h.2]; exact List.suffix_cons t rest
+    · exact List.IsSuffix.trans (ih h) (List.suffix_cons t rest)
+
+/-- fd `-x` and `-X`: everything after the first exec flag, re-quoted -/
+theorem fd_inner_suffix (tokens : List String) (hd : (fdClassify tokens).action = "delegate") :
+    ∃ inner, inner ≠ [] ∧ inner <:+ tokens.drop 1 ∧ (fdClassify tokens).innerCommand = some (bashJoin inner) := by
+  by_cases hlen : tokens.length < 2
+  · simp [fdClassify, hlen, allow] at hd
+  · have hdt : tokens.drop 1 = tokens.tail := by simp
+    rw [hdt]
+    cases hfe : fdAfterExec tokens.tail with
+    | none => simp [fdClassify, hlen, hfe, allow] at hd
+    | some fi =>
+      obtain ⟨flag, inner⟩ := fi
+      cases inner with
+      | nil => simp [fdClassify, hlen, hfe, ask] at hd
+      | cons first more =>
+        refine ⟨first :: more, by simp, fdAfterExec_suffix _ _ _ hfe, ?_⟩
+        simp [fdClassify, hlen, hfe, delegate]
+
 /-- kubectl exec: exactly the words after the first `--` -/
 theorem kubectlExecInner_spec (l inner : List String) (hi : kubectlExecInner l = some inner) :
     inner ≠ [] ∧ ∃ pre, l = pre ++ "--" :: inner ∧ "--" ∉ pre := by
@@ -412,5 +494,13 @@ theorem find_all_clauses (tokens : List String)
 
 example : execClauses ["find", ".", "-exec", "ls", "{}", ";", "-execdir", "rm", "{}", "+"]
     = [["ls", "{}"], ["rm", "{}"]] := by decide +kernel
+
+/-! ### T0 obligation: the launchers are the ones this property covers -/
+
+/-- the handler modules that can answer `delegate` (found by T0 in the source) are exactly the thirteen launchers the
+    property lists and the check exercises; a new launcher breaks this until it is modelled or covered -/
+theorem launchers_covered :
+    Generated.delegatingModules = ["arch", "caffeinate", "docker", "env", "fd", "find", "fzf", "kubectl", "script", "shell", "tar", "uv", "xargs"]
+      ∧ Generated.remoteModules = ["docker", "kubectl"] := by decide
 
 end Dippy.C04
